@@ -6,6 +6,7 @@ import SigHook.Model.RegistryConc
 import SigHook.Model.Channel
 import SigHook.Model.ChannelGen
 import SigHook.Model.Iterator
+import SigHook.Model.Entry
 import SigHook.Gen.Orderings
 import SigHook.Gen.Consts
 import SigHook.Model.Env
@@ -572,6 +573,90 @@ def itStep (d : ItDrv) (line : String) : ItDrv × String :=
     | _, _ => (d, "bad-op")
   | _ => (d, "bad-op")
 
+/-! ### entry points and Signals instances (L10) -/
+
+def parseEntry' (e : String) : Option Entry.Entry :=
+  match e with
+  | "register" => some .register | "register_sigaction" => some .registerSigaction
+  | "register_signal_unchecked" => some .registerSignalUnchecked | "register_unchecked" => some .registerUnchecked
+  | "flag" => some .flag | "flag_usize" => some .flagUsize | "cond_shutdown" => some .condShutdown
+  | "cond_default" => some .condDefault | "pipe" => some .pipe | "pipe_raw" => some .pipeRaw
+  | "pipe_dgram" => some .pipeDgram | _ => none
+
+def fmtRes : Entry.Res → String
+  | .ok => "ok" | .err => "err" | .panic => "panic" | .abort => "abort"
+
+def enShape : Entry.Shape := { tolerant := Gen.lockToleratesPoison, idem := Gen.initIdempotent }
+
+/-- dispositions that differ between two registry states, as `sig:kind` -/
+def dispDiff (a b : Registry.State) : String :=
+  let ch := (List.range 64).filterMap (fun (k : Nat) =>
+    let sig : Int := Int.ofNat k + 1
+    let da := Registry.dispOf a sig
+    let db := Registry.dispOf b sig
+    if da == db then none else some s!"{sig}:{((fmtDisp db).splitOn ":").headD "?"}")
+  if ch.isEmpty then "same" else "changed:" ++ ",".intercalate ch
+
+structure EnDrv where
+  w : Entry.World := Entry.World.init
+  tag : Nat := 1
+  dead : Bool := false
+  /-- signals on which `check` registered its independent flag -/
+  flags : List Int := []
+
+def knownSig (n : Int) : Bool := Default.known Gen.details n
+
+def enStep (d : EnDrv) (line : String) : EnDrv × String :=
+  if d.dead then (match line.trimAscii.toString with | "---" => ({}, "exit killedBy:6\n---") | _ => (d, "")) else
+  match line.trimAscii.toString.splitOn " " with
+  | ["reg", e, s] =>
+    match parseEntry' e, parseInt? s with
+    | some e, some sig =>
+      let r := Entry.callEntry regEnv knownSig d.w.reg e sig d.tag
+      ({ d with w := { d.w with reg := r.1 }, tag := d.tag + 1 },
+       s!"{fmtRes r.2.1} disp={dispDiff d.w.reg r.1} res={if r.2.2 then "held" else "released"}")
+    | _, _ => (d, "bad-op")
+  | "new" :: exf :: sigs =>
+    let ss := sigs.filterMap parseInt?
+    let tagged := ss.zipIdx.map (fun (p : Int × Nat) => (p.1, d.tag + p.2))
+    let r := Entry.newInst regEnv enShape d.w (if exf == "raw" then .raw else .only) tagged
+    let d' := { d with w := r.1, tag := d.tag + ss.length }
+    if r.2 == .abort then ({ d' with dead := true }, "DEAD")
+    else (d', s!"{fmtRes r.2} disp={dispDiff d.w.reg r.1.reg}")
+  | [op, s] =>
+    match op, parseInt? s with
+    | "add", some n | "hadd", some n =>
+      let r := Entry.addSignal regEnv enShape d.w n d.tag
+      ({ d with w := r.1, tag := d.tag + 1 }, s!"{fmtRes r.2} disp={dispDiff d.w.reg r.1.reg}")
+    | "check", some sig =>
+      -- the independent flag first (a checked registration), then the delivery
+      let (w1, flags, tag) := if d.flags.contains sig then (d.w, d.flags, d.tag) else
+        let r := Registry.register regEnv d.w.reg sig d.tag
+        match r.2 with
+        | .id _ _ => ({ d.w with reg := r.1 }, sig :: d.flags, d.tag + 1)
+        | _ => (d.w, d.flags, d.tag + 1)
+      let d' := { d with w := w1, flags := flags, tag := tag }
+      match Registry.dispOf w1.reg sig with
+      | .lib _ =>
+        let flagSeen := flags.contains sig
+        let watched := match w1.inst with
+          | some i => (Registry.lookup sig i.ids).isSome
+          | none => false
+        (d', s!"flag={flagSeen} yielded={if watched then s!"[{sig}]" else "[]"}")
+      | dd => (d', s!"notours {fmtDisp dd}")
+    | _, _ => (d, "bad-op")
+  | ["drop"] =>
+    let r := Entry.dropInst enShape d.w
+    -- a leaked registration keeps the write end of the self-pipe open
+    let had := match d.w.inst with | some i => !i.ids.isEmpty | none => false
+    ({ d with w := r.1 }, s!"{fmtRes r.2} fds={if r.2 == .panic && had then "+1" else "+0"}")
+  | ["usable"] =>
+    let r := Registry.register regEnv d.w.reg Gen.SIGUSR2 d.tag
+    let ok := match r.2 with | .id _ _ => true | _ => false
+    ({ d with w := { d.w with reg := r.1 }, tag := d.tag + 1 }, s!"usable {ok}")
+  | ["---"] => ({}, "exit continues\n---")
+  | _ => (d, "bad-op")
+
 partial def loop {σ} (h : IO.FS.Stream) (out : IO.FS.Stream) (st : σ) (f : σ → String → σ × String) :
     IO Unit := do
   let line ← h.getLine
@@ -594,5 +679,6 @@ def main (args : List String) : IO UInt32 := do
   | ["regconc"] => loop stdin stdout ({} : RcDrv) rcStep; return 0
   | ["channel"] => loop stdin stdout ({} : ChDrv) chStep; return 0
   | ["iter"] => loop stdin stdout ({} : ItDrv) itStep; return 0
+  | ["entries"] => loop stdin stdout ({} : EnDrv) enStep; return 0
   | ["channel-table"] => (for l in chTable () do stdout.putStrLn l); return 0
   | _ => IO.eprintln "usage: driver registry"; return 2
